@@ -104,7 +104,7 @@ func c08Gen(rt *rapid.T) wProg {
 			}
 			return wOp{K: "set", S: s, T: topicFor(s), A: "desc", H: map[string]any{"public": map[string]any{"fn": v}, "private": map[string]any{"c": v}}}
 		case x < 68:
-			return wOp{K: "set", S: s, T: topicFor(s), A: "tags", X: gPick(rt, [][]string{{"alpha"}, {"alpha", "beta"}, {}, {"gamma", "Delta "}}, "tags")}
+			return wOp{K: "set", S: s, T: topicFor(s), A: "tags", X: gPick(rt, [][]string{{"alpha"}, {"alpha", "beta"}, {}, {"gamma", "Delta "}, {"alpha", "ALPHA", "x", "#hash", "beta"}, {"beta", "beta", "b"}, {"\u2421"}}, "tags")}
 		case x < 76:
 			lo := gInt(rt, 1, 4, "lo")
 			return wOp{K: "del", S: s, T: topicFor(s), A: "msg", F: gPct(rt, 50), R: [][2]int{{lo, gPick(rt, []int{0, lo + 1, lo + 2, lo + 3}, "hi")}}}
